@@ -132,6 +132,35 @@ Theorem C07_mark_is_flag :
 Proof. exact mark_is_flag. Qed.
 Print Assumptions C07_mark_is_flag.
 
+(* finish, in user terms: once a terminal whose finish flag is set matches, no terminal ranked
+   after it in the state's action order is ever returned (any flags, any marks). *)
+Theorem C07_finish_cuts :
+  forall (terms : list term_info) (rx : N -> N -> option N) (pos : N)
+         (acts : list (N * list action)) (pre : list cterm) (c : cterm) (post : list cterm)
+         (n : N) (flags : list bool) (t : N * N),
+    map fst acts = map c_id (pre ++ c :: post) -> terms_agree terms (pre ++ c :: post) ->
+    prior_sorted (pre ++ c :: post) ->
+    nth_error flags (length pre) = Some true -> rx (c_id c) pos = Some n ->
+    In t (recognize terms rx acts flags pos None []) ->
+    exists d, In d (pre ++ [c]) /\ fst t = c_id d.
+Proof. exact finish_cuts. Qed.
+Print Assumptions C07_finish_cuts.
+
+(* nofinish, in user terms (the use documented by test_nofinish): when the string / keyword
+   terminals of the expected set are marked nofinish and the others are unmarked, the outcome
+   is the documented order with the "string over regex" rule switched off: highest priority,
+   longest match, prefer.  No hypothesis on text lengths, ties or recognizers is needed beyond
+   priorities descending along the cell. *)
+Theorem C07_nofinish :
+  forall (terms : list term_info) (rx : N -> N -> option N) (pos : N)
+         (acts : list (N * list action)) (cell : list cterm),
+    map fst acts = map c_id cell -> terms_agree terms cell -> prior_sorted cell ->
+    strings_nofinish cell ->
+    lexical_disambiguation terms (recognize terms rx acts (impl_flags cell) pos None [])
+    = map tok (keep_prefer (keep_longest (keep_prior (matches rx pos (map to_lterm cell))))).
+Proof. exact nofinish_doc. Qed.
+Print Assumptions C07_nofinish.
+
 (* non-vacuity: state expecting 'if', an identifier regex, a number regex {prefer} and STOP,
    input "if1" at position 0, consume_input off: every hypothesis of C07_next_tokens_doc holds
    and the token is 'if' (string over the longer regex match). *)
